@@ -79,7 +79,7 @@ func checkC04(c *Ctx) {
 	checkFormatterTables(c, gen)
 	checkParsePointerAssertions(c, ev, gen)
 
-	checkOptionalFile(c, ev)
+	checkOptionalFile(c, "C04.R1.optional-file", ev)
 	// client and server must read the same flags off a parameter (the client skips what the server requires …)
 	checkParamFlags(c, "C04.R1.param-flags", gen)
 	checkFormatGuards(c, "C04.R1.format-guards", ev, 2)
@@ -557,8 +557,7 @@ func checkDiscriminatorAgreement(c *Ctx, rule string, gen *packages.Package) {
 // as a non-nil runtime.File with nil data. And since BindRequest accepts forms that are not
 // multipart (it falls back to ParseForm on http.ErrNotMultipart), the optional file binder must
 // accept them too: a client with no file to send does not build a multipart body.
-func checkOptionalFile(c *Ctx, ev *tmpl.Evaluator) {
-	rule := "C04.R1.optional-file"
+func checkOptionalFile(c *Ctx, rule string, ev *tmpl.Evaluator) {
 	c.Rule(rule, "the sentinel errors excluded from the error arm of the server's file binder are taken, under the same guards and before the value is bound, by an arm of their own; they include http.ErrNotMultipart when BindRequest itself accepts non-multipart forms", 2)
 	l := linearOf(c, ev, "serverParameter")
 	if l == nil {
@@ -600,6 +599,15 @@ func checkOptionalFile(c *Ctx, ev *tmpl.Evaluator) {
 		}
 		c.Check(ok, rule, fmt.Sprintf("serverParameter › file binder #%d › a missing optional file is a case of its own", i+1), l.Tree.PosStr(e.Pos), "no-op arm for "+set(e.Match[1])+" under ["+eg+"]",
 			"the error arm lets "+set(e.Match[1])+" through under ["+eg+"] but the arm that follows takes ["+got+"]: the handler gets &runtime.File{Data: nil} for a file the client did not send")
+		// who may omit the file is said by `required` alone: allowEmptyValue (which IsNullable takes
+		// into account) speaks of a parameter sent without a value, not of one that is not sent
+		gs := l.GuardsAt(e.Start + strings.Index(l.Text[e.Start:e.End], "&&"))
+		inner := ""
+		if len(gs) > 0 {
+			inner = strings.TrimSpace(gs[len(gs)-1].Pipe)
+		}
+		c.Check(inner == "not .Required", rule, fmt.Sprintf("serverParameter › file binder #%d › every file that is not required may be missing", i+1), l.Tree.PosStr(e.Pos), "tolerance under `not .Required`",
+			"the tolerance for a missing file is emitted under `"+inner+"`, not under `not .Required`: an optional file parameter for which that flag is off (allowEmptyValue: true turns IsNullable off) is demanded like a required one — a request without the file is answered 400 and the handler is not run")
 		if tolerant {
 			c.Check(strings.Contains(set(e.Match[1]), "ErrNotMultipart"), rule, fmt.Sprintf("serverParameter › file binder #%d › a form that is not multipart has no file", i+1), l.Tree.PosStr(e.Pos), "http.ErrNotMultipart is excluded like http.ErrMissingFile",
 				"BindRequest accepts a form that is not multipart (ParseForm fall-back) but the optional file binder answers 400 on http.ErrNotMultipart: a client that has no file to send (and so does not build a multipart body) is refused")
